@@ -33,6 +33,10 @@ LEAVES = [
     T.binop("Or", T.lam(T.I("zz"), "All", "z", T.lam(b, "Any", "y", T.binop("Eq", T.path("x", "b"), T.I("a")))),
             T.lam(a, "Any", "x", T.lam(b, "Any", "y", T.binop("Eq", T.path("x", "b"), T.I("a"))))),
     T.binop("And", T.binop("Eq", T.path("a", "b"), T.Int(1)), T.lam(T.I("xs"), "Any", "a", T.binop("Eq", T.path("a", "b"), T.Int(1)))),
+    # the collection path in front of any()/all() is OUTSIDE the lambda's scope, also when it starts with the variable's own name
+    T.lam(T.path("a", "b"), "Any", "a", T.binop("Eq", T.path("a", "c"), b)), T.lam(a, "All", "a", T.binop("Eq", a, b)),
+    T.lam(T.path("a", "b", "c"), "Any", "b", T.binop("Eq", T.path("b", "c"), T.path("a", "b"))),
+    T.lam(T.I("xs"), "Any", "a", T.lam(T.path("b", "ys"), "Any", "b", T.binop("Eq", T.path("b", "p"), T.path("a", "b")))),
     # sibling lambdas binding the same name, then a free use of that name
     T.binop("And", T.binop("And", T.lam(a, "Any", "x", T.binop("Eq", T.path("x", "b"), T.Int(1))), T.lam(b, "All", "x", T.binop("Eq", T.I("x"), T.Int(2)))),
             T.binop("Eq", T.I("x"), T.path("x", "b"))),
